@@ -315,3 +315,57 @@ def localise(design, it):
     finally:
         rg.clearWireNamesCache()
     return culprits
+
+
+def localise_pre_edge(make_design, vectors, cycle, sequential):
+    """Mismatch seen after the edge of `cycle` (1-based): rebuild, replay the earlier cycles, apply the inputs of that cycle,
+    settle both sides and compare the internal nets *before* the edge (that is where a wrong next-state value is visible)."""
+    des = make_design()
+    out = cosim(des, vectors[:cycle - 1], sequential)
+    if out.mismatch is not None or out.status != 'compared' or not hasattr(out, 'interp'):
+        return []
+    it = out.interp
+    mi_ports = {w.name: port_name(it.top.mi, w.name) for w in des.ins}
+    vec = vectors[cycle - 1] if cycle - 1 < len(vectors) else {}
+    for w in des.ins:
+        v = vec.get(w.name, 0)
+        w.put(v)
+        it.set_input(mi_ports[w.name], v)
+    with muted():
+        des.hw.getSimulator().propagateAll()
+    it.settle()
+    return localise(des, it)
+
+
+def first_divergence(make_design, vectors, sequential, limit=None):
+    """Rebuild and re-run in lockstep, comparing the *internal* nets at every settled point and after every edge;
+    returns (cycle, when, culprits) for the first point where any block with agreeing inputs has a disagreeing output."""
+    des = make_design()
+    out = cosim(des, [], sequential)
+    if out.status != 'compared' or not hasattr(out, 'interp'):
+        return None
+    it = out.interp
+    ports = {w.name: port_name(it.top.mi, w.name) for w in des.ins}
+    sim = des.hw.getSimulator()
+    c = localise(des, it)
+    if c:
+        return (0, 'power-up', c)
+    for cyc, vec in enumerate(vectors[:limit] if limit else vectors):
+        for w in des.ins:
+            v = vec.get(w.name, 0)
+            w.put(v)
+            it.set_input(ports[w.name], v)
+        with muted():
+            sim.propagateAll()
+        it.settle()
+        c = localise(des, it)
+        if c:
+            return (cyc + 1, 'settled', c)
+        if sequential:
+            with muted():
+                sim.clk(1)
+            it.posedge()
+            c = localise(des, it)
+            if c:
+                return (cyc + 1, 'after-edge', c)
+    return None
